@@ -97,7 +97,7 @@ def run_check(prop, tier, seed):
         jobs = []
         modes = ["verify"] + (["vacuity"] if spec.get("vacuity", True) else [])
         for (gname, ctx) in jobs_spec:
-            g = plan.GROUPS[gname]
+            g = assemble.resolve(plan.GROUPS[gname], ctx)
             variants = [("verify", None)]
             if spec.get("vacuity", True):
                 inh, tr = assemble.vacuity_targets(all_units, g)
